@@ -10,7 +10,7 @@ from __future__ import annotations
 import math
 
 from ..core import sym
-from ..core.loader import Project
+from ..core.loader import AnalysisError, Project
 from ..core.values import Arr, Blocks, NoneV, Sc
 from .c01 import check_cost, check_empty
 from .distances import WS, B, Dd, Run, check_filter, check_tiling, unmodelled_in
@@ -91,6 +91,13 @@ def run(project: Project, rep, tier: str):
     check_tiling(rep, "WS-TILE", run_, D, fi)
     check_filter(rep, "WS-FILTER", project, WS)
     check_solve(rep, run_, D)
+    # the value returned together with the matching is the same distance: the same sum over the solver's own pairs
+    run_m = Run(project, WS, matching=True)
+    try:
+        D_m = run_m.cost_matrix()
+        check_solve(rep, run_m, D_m)
+    except AnalysisError as ex:
+        rep.unmodelled("WS-SOLVE", fi, fi.node, f"matching=True: {ex}"[:160])
     check_empty(rep, project, WS, rule="WS-EMPTY")
     for ev in run_.events("shape-error"):
         rep.refuted("WS-TILE", fi, ev["node"], f"shape mismatch for some sizes: {ev['message']}")
